@@ -29,6 +29,7 @@ Mapping real event (a goroutine completed the step it was released into) → mod
 | C `C.exit` (goroutine gone)                      | `cRecv` (the last one: `cAlive := false`)                |
 | C `C.ctxDone` (goroutine gone; it first waits for `spawned`, closed by the caller's last loop step) | `cCtxDone` (enabled iff `m = none`) |
 | M `M.wait` (walk returned r)                     | none; checked: `terminal`, r = `firstErr`                |
+| X `extCancel` (the harness cancels the context it passed to `InDependencyOrder`) | `extCancel`               |
 -/
 open Lean
 namespace CV.Ops.C13
@@ -166,6 +167,7 @@ def applyEvt (g : Graph) (lim : Option Nat) (s : St) (e : Evt) : Except String S
     if s'.cAlive then throw "real coordinator exited, model one continues"
     pure s'
   | "C", "C.ctxDone" => run g lim s [.cCtxDone]
+  | "X", "extCancel" => run g lim s [.extCancel]
   | gs, st =>
     match whoOf gs with
     | none => throw ("unknown goroutine " ++ gs)
